@@ -286,6 +286,17 @@ func orchestrate() int {
 		fmt.Printf("KNOWN-FINDING: property=%s %s\n", prop, known[k].What)
 	}
 	code := 0
+	if len(fresh) > 0 {
+		kinds := map[string]int{}
+		for _, v := range fresh {
+			k := v.Key
+			if i := strings.LastIndex(k, "/"); i > 0 {
+				k = k[:i]
+			}
+			kinds[v.Part+" "+k]++
+		}
+		fmt.Printf("violation classes (distinct keys kept): %v\n", kinds)
+	}
 	if replay == nil {
 		os.MkdirAll(filepath.Join(root, "replays"), 0o755)
 		for i, v := range fresh {
